@@ -634,10 +634,10 @@ STD = {
     # name: (annotation, json kind, valid witnesses, invalid witnesses)
     "uuid": ("UUID", "str", ["12345678-1234-5678-1234-567812345678", "00000000-0000-0000-0000-000000000000"], ["zz", "1234"]),
     "date": ("date", "str", ["2020-01-31", "1999-12-01"], ["2020-13-01", "yesterday"]),
-    "datetime": ("datetime", "str", ["2020-01-31T12:30:00", "1999-12-01T00:00:00+00:00"], ["2020-01-31T25:00:00", "now"]),
-    "time": ("time", "str", ["12:30:00", "00:00:01"], ["25:00:00", "noon"]),
-    "decimal": ("Decimal", "num", [1.5, 2, -0.25], []),
-    "bytes": ("bytes", "str", ["YWJj", "", "AAAA"], []),
+    "datetime": ("datetime", "str", ["2020-01-31T12:30:00", "1999-12-01T00:00:00+00:00", "2020-01-31T12:30:00.000123", "2021-06-30T23:59:59+05:30"], ["2020-01-31T25:00:00", "now"]),
+    "time": ("time", "str", ["12:30:00", "00:00:01", "23:59:59.000500"], ["25:00:00", "noon"]),
+    "decimal": ("Decimal", "num", [1.5, 2, -0.25, 1e-07, 123456789.125], []),
+    "bytes": ("bytes", "str", ["YWJj", "", "AAAA", "+/+/", "/w==", "+/8=", "YQ=="], []),
     "path": ("Path", "str", ["/tmp/x", "a/b", "rel"], []),
     "ipv4": ("IPv4Address", "str", ["127.0.0.1", "10.0.0.255"], ["256.1.1.1", "localhost"]),
     "ipv6": ("IPv6Address", "str", ["::1", "fe80::1"], ["::zz", "1"]),
